@@ -170,6 +170,7 @@ func (s *Stor) log(k Kind, fd storage.FileDesc) *Op {
 	if s.Audit && k.Mutating() {
 		s.Breach = append(s.Breach, fmt.Sprintf("%s %v by g%d", k, fd, vsched.Cur()))
 	}
+	vsched.Event(vsched.OpStorage, vsched.ObjStorage, true)
 	s.seq++
 	s.Ops = append(s.Ops, Op{Seq: s.seq, G: vsched.Cur(), Kind: k, Fd: fd})
 	return &s.Ops[len(s.Ops)-1]
